@@ -68,6 +68,8 @@ class C15(Prop):
                     ops.append("abs %s %s" % (tok(norm(ns)), tok(k)))
             scns.append(Scenario("name", "C15_x_%d" % i, [], ops, {"ns": ns}))
         ks = ["closure " + tok(k) for k in keys if k.startswith("/")]
+        ks += ["rebuild " + tok(k) for k in keys if k.startswith("/") and "//" not in k and not k.endswith("/")
+               and k != "/zz"]
         scns.append(Scenario("name", "C15_closure", [], ks, {}))
         if tier == "thorough":
             wide = "/ab_ .x"
@@ -99,7 +101,7 @@ class C15(Prop):
                 if r != "R " + (ns if ns.startswith("/") else "/" + ns):
                     out.append(viol("client-namespace", "Client(namespace=%r).namespace -> %s" % (ns, r)))
                 continue
-            if op == "closure":
+            if op in ("closure", "rebuild"):
                 k = untok(args[0])
                 if "//" in k or k.endswith("/"):
                     continue
